@@ -302,7 +302,11 @@ def run(tier, seed):
     sc = [(sp, dict(o, max_time=o["max_time"] + 30)) for sp, o in F.scale_items(("TSLACK", "SPT")) if sp["label"] in ("scale:wide12", "scale:wide12-6workers", "scale:layers3x4", "scale:seven-predecessors", "scale:8components", "scale:ten-predecessors", "scale:nine-successors",
                                                                                                           "scale:ambiguous-ids-workers", "scale:ambiguous-ids-teams", "scale:queue-of-nine")
           and not o.get("res_absence")]
+    lad = F.diamond_ladder_spec(32)
+    sc.append((lad, {"rule": "TSLACK", "max_time": 3 * 32 + 10, "phases": ()}))  # 97 tasks in 32 reconvergent stages (2^32 paths)
     colb.merge(stepcheck.explore(sc, [mon_feasible], 0, 0, seed=seed))  # medium-sized feasible models
+    # follow-up work: a task is added (through the public API) at a stop or after the project has completed, and the run is continued with state and logs kept
+    colb.merge(stepcheck.explore(stepcheck.resumed_edit_items(("add-task",), ks=(1, 2, 4, 12)), [mon_feasible], 0, 0, seed=seed))
     inf = infeasible_items(tier)
     colc = stepcheck.explore(inf, [mon_infeasible], 2, 1, who_fn=lambda sp: ["P"], seed=seed)
     cuts = cut_items(tier)
